@@ -408,6 +408,36 @@ fn huge_zst(cfg: &Cfg) -> Report {
     r
 }
 
+/// long slices: a refactor that processes elements in blocks (8/16/32 at a time) only misbehaves
+/// beyond the lengths the exhaustive part reaches
+fn long_slices(cfg: &Cfg) -> Report {
+    let lens: &[usize] = if cfg.miri() { &[33] } else { &[31, 32, 33, 63, 64, 65, 127, 128, 129, 255, 256, 257, 1000] };
+    par_for(cfg, lens.len() * 2, |w, r| {
+        let len = lens[w / 2];
+        let mut rng = Rng::new(cfg.seed ^ (w as u64 * 7919));
+        let mut idx: Vec<usize> = vec![0, 1, 7, 8, 9, 15, 16, 17, 31, 32, 33, 63, 64, 65, len / 2, len - 1, len, len + 1, usize::MAX];
+        for _ in 0..cfg.by(2, 8, 16) {
+            idx.push(rng.below(len + 2));
+        }
+        idx.retain(|&i| i <= len + 1 || i == usize::MAX);
+        idx.sort();
+        idx.dedup();
+        if w % 2 == 0 {
+            let v: Vec<u32> = (0..len).map(|k| 10 + k as u32).collect();
+            let mut c = Ctx { r, ty: "u32(long)", zst: false };
+            shared_checks(&mut c, &v, &idx);
+            mut_checks(&mut c, &v, &idx, &|k| 100_000 + k as u32);
+            arrays_and_chunks(&mut c, &v);
+        } else {
+            let v: Vec<u8> = (0..len).map(|k| k as u8).collect();
+            let mut c = Ctx { r, ty: "u8(long)", zst: false };
+            shared_checks(&mut c, &v, &idx);
+            mut_checks(&mut c, &v, &idx, &|k| (200 + k) as u8);
+            arrays_and_chunks(&mut c, &v);
+        }
+    })
+}
+
 pub fn run(cfg: &Cfg) -> (&'static str, Report, String, String) {
     let maxlen = cfg.by(3, 10, 16);
     let mut rep = Report::new();
@@ -417,10 +447,11 @@ pub fn run(cfg: &Cfg) -> (&'static str, Report, String, String) {
     rep.merge(run_type::<[u8; 3]>(cfg, "[u8;3]", &|k| [k as u8, 1, 2], cfg.by(3, maxlen, maxlen)));
     rep.merge(run_type::<u64>(cfg, "u64", &|k| 1u64 << (k % 60), cfg.by(2, maxlen, maxlen)));
     rep.merge(huge_zst(cfg));
+    rep.merge(long_slices(cfg));
     (
         "C02",
         rep,
-        format!("all lengths 0..={} x element types u32/()/String/[u8;3]/u64 x all indices and index pairs from I(len) (0..=len+2 plus values around isize::MAX, usize::MAX/size, usize::MAX); array sizes 0..=12,16,17; chunk sizes 1..=9,11,16,17; ZST slices of length isize::MAX-ish..usize::MAX", maxlen),
+        format!("all lengths 0..={} x element types u32/()/String/[u8;3]/u64 x all indices and index pairs from I(len) (0..=len+2 plus values around isize::MAX, usize::MAX/size, usize::MAX); array sizes 0..=12,16,17; chunk sizes 1..=9,11,16,17; ZST slices of length isize::MAX-ish..usize::MAX; long slices (31..=257, 1000 elements of u32/u8) with index pairs around the block sizes 8/16/32/64", maxlen),
         "one evaluation = one konst call compared with std (get/get_mut/get_from/get_up_to/get_range/slice_from/slice_up_to/slice_range/split_at and _mut twins, first/last/split_first/split_last _mut, try_into_array(_mut), as_chunks, as_rchunks); compared by address+length (length only for empty results and ZSTs), _mut variants additionally by writing tags through the returned reference; non-trivial = distinct (type,len,start,end) with a non-empty proper sub-slice, (type,len,N) with a successful array conversion or chunks+remainder".into(),
     )
 }
